@@ -207,3 +207,39 @@ class Streamer(object):
 
     def ping(self):
         return "pong"
+
+
+class GwTarget(object):
+    """object behind the HTTP gateway; logs every invocation"""
+    def __init__(self, label):
+        self.label = label
+        self.log = []
+
+    @server.expose
+    def m(self, **kwargs):
+        self.log.append(("m", dict(kwargs)))
+        return [self.label, sorted(kwargs.items())]
+
+    @server.expose
+    def fail(self, **kwargs):
+        self.log.append(("fail", dict(kwargs)))
+        raise ValueError("gw-failure")
+
+    @server.expose
+    @server.oneway
+    def ow(self, **kwargs):
+        self.log.append(("ow", dict(kwargs)))
+
+    @server.expose
+    @property
+    def attr(self):
+        self.log.append(("attr", {}))
+        return "attr-of-" + self.label
+
+    def secret(self, **kwargs):
+        self.log.append(("secret", dict(kwargs)))
+        return "leak"
+
+    def _private(self, **kwargs):
+        self.log.append(("_private", dict(kwargs)))
+        return "leak"
